@@ -8,11 +8,17 @@ Pipeline (BUILDING.md):
                 for point / segment / box / triangle element sets at every depth, queried on a whole grid
   B2            vh spatial-random   - seeded element sets and scenes (spheres, triangles) at larger sizes
   executor      vh spatial-exec     - real OctTree (through modeling.Mesh), BVHNode, HitList, rendering.Tree
+                round 2: every mesh case runs through one VARIANT = index layout (implied / permuted / welded /
+                with unreferenced vertices) x route (OctTree, OctTreeDepth, OctTreeWithAttributeAndDepth on Position
+                or on a second float3 attribute, with or without a Position attribute); the scan comes from the
+                unrolled Position-only twin of the mesh, and the mesh-level scan (Primitive.BoundingBox /
+                ClosestPoint(attr)) is judged against it (C16.ScanAgree)
   judge         TraceSpatial.tla    - TLC evaluates TreeSound on the dumped real tree and the contract
                 (SetAgrees / ClosestOK / NearestOK / HitOK) on every real answer
 """
 import json
 import os
+import random
 from concurrent.futures import ThreadPoolExecutor
 
 from vlib import core
@@ -22,8 +28,13 @@ OPS = {
     "C16.Closest": "ClosestPoint", "C16.Contain": "ElementsContainingPoint", "C16.Range": "ElementsWithinRange",
     "C16.Ray": "ElementsIntersectingRay", "C16.Traverse": "TraverseIntersectingRay",
     "C16.Nearest": "TraverseIntersectingRay.narrowing", "C16.ListHit": "HitList.Hit", "C16.BvhHit": "BVHNode.Hit",
-    "C16.OctHit": "Tree.Hit", "C16.TreeSound": "NewOctree", "C16.Build": "build",
+    "C16.OctHit": "Tree.Hit", "C16.MeshHit": "rendering.Mesh.Hit", "C16.MeshHit2": "rendering.Mesh.Hit2", "C16.TreeSound": "NewOctree", "C16.Build": "build",
+    ("C16.ScanAgree", "tree"): "Primitive.BoundingBox", ("C16.ScanAgree", "closest"): "Primitive.ClosestPoint",
 }
+
+
+def op_of(pred, k):
+    return OPS.get((pred, k), OPS.get(pred, k))
 QUERY_LIST = {"closest": "qpts", "contain": "qpts", "range": "ranges", "ray": "rays", "near": "rays", "hit": "rays"}
 
 
@@ -110,20 +121,36 @@ def gen_b1(ctx, name, **kw):
     ctx.add_tlc(r)
     grid = None
     cases = []
+    dlist = []
     for v in r.values:
         if isinstance(v, dict) and "grid" in v:
             grid = v["grid"]
+            dlist = sorted(v["depths"])
         elif isinstance(v, dict) and "cases" in v:
             cases += v["cases"]
+    # deterministic order (TLC workers print in any order, SetToSeq in any order); a variant determines the
+    # multiset it was made from, so the first variant identifies the record
+    for c in cases:
+        c["variants"].sort(key=lambda v: json.dumps(v, sort_keys=True))
+        c["key"] = json.dumps(c["variants"][0], sort_keys=True)
+    # every printed record stands for one case per depth
+    cases = [dict(c, depth=d) for c in cases for d in dlist]
+    cases.sort(key=lambda c: (c["kind"], c["depth"], c["key"]))
     if grid is None or not cases:
         raise core.Infra("SpatialGen printed no grid / no cases")
-    # deterministic order (TLC workers print in any order)
-    cases.sort(key=lambda c: json.dumps(c, sort_keys=True))
+    # one variant (index layout x attribute route) of every case, seeded choice: the element set, the depth and
+    # the queries are the same in all of them, so nothing of the old coverage depends on the choice
+    rng = random.Random(ctx.seed * 1000003 + len(cases))
     out = []
+    nvar = 0
     for c in cases:
-        c = dict(c)
+        v = c["variants"][rng.randrange(len(c["variants"]))]
+        nvar += len(c["variants"])
+        c = {"kind": c["kind"], "depth": c["depth"], "verts": v["verts"], "idx": v["idx"], "attr": v["attr"],
+             "decoy": v["decoy"], "lay": v["lay"]}
         c.update(tag="bfs-" + name, sph=[], reps=1, qpts=grid["qpts"], ranges=grid["ranges"], rays=grid["rays"])
         out.append(c)
+    ctx.extra["b1_variants_" + name] = nvar
     return out, r.distinct
 
 
@@ -158,12 +185,15 @@ def judge(ctx, raw, name, timeout=3000):
                 continue
             ln = json.loads(sh[v["l"] - 1])
             # the tree/scene line this query line belongs to
-            kind = ln.get("kind")
-            if kind is None:
+            bl = ln
+            if ln.get("kind") is None:
                 for j in range(v["l"] - 1, -1, -1):
                     if is_boundary(sh[j]):
-                        kind = json.loads(sh[j])["kind"]
+                        bl = json.loads(sh[j])
                         break
+            kind = bl.get("kind")
+            if bl.get("attr"):
+                kind = "%s@%s" % (kind, bl["attr"])
             for pred in v["bad"]:
                 findings.append({"pred": pred, "k": ln["k"], "case": ln["case"], "kind": kind,
                                  "entries": sorted(v["fails"][pred])})
@@ -172,7 +202,9 @@ def judge(ctx, raw, name, timeout=3000):
 
 def n_elements(case):
     k = case["kind"]
-    return {"point": len(case["verts"]), "line": len(case["idx"]) - 1, "tri": len(case["idx"]) // 3,
+    if k in ("point", "line") and not case["idx"]:
+        return len(case["verts"]) - (1 if k == "line" else 0)
+    return {"point": len(case["idx"]), "line": len(case["idx"]) - 1, "tri": len(case["idx"]) // 3,
             "bvhtri": len(case["idx"]) // 3, "box": len(case["idx"]) // 2, "sphere": len(case["sph"])}[k]
 
 
@@ -203,6 +235,23 @@ def stats(raw, acc, cases):
                 acc["trees_cell_with_several_elements"] += 1
             acc["max_cells"] = max(acc["max_cells"], len(cells))
             acc["max_elements"] = max(acc["max_elements"], t["n"])
+            # round 2: routes and layouts, counted on what was ASKED (the case), built or not - a route on
+            # which every build fails is a finding, not a vacuous run
+            cs = by_id[t["case"]]
+            if cs["kind"] != "box":
+                acc["trees_from_mesh"] += 1
+                if cs["idx"] != list(range(len(cs["idx"]))):
+                    acc["trees_nonidentity_indices"] += 1
+                if cs.get("attr"):
+                    acc["trees_attribute_route"] += 1
+                if cs.get("attr") not in ("", None, "Position"):
+                    acc["trees_on_second_attribute"] += 1
+                    if cs["kind"] == "tri" and cs["idx"] != list(range(len(cs["idx"]))):
+                        acc["tri_trees_on_second_attribute_nonidentity"] += 1
+                    if not cs.get("decoy"):
+                        acc["trees_mesh_without_position"] += 1
+                if cs.get("decoy"):
+                    acc["trees_mesh_with_decoy_attribute"] += 1
         elif k == "scene":
             acc["bvh_builds"] += 1
             acc["max_elements"] = max(acc["max_elements"], t["n"])
@@ -211,6 +260,8 @@ def stats(raw, acc, cases):
                 acc["closest"] += 1
                 if len(set(e["d2"])) >= 2:
                     acc["closest_argmin_nontrivial"] += 1
+                if e["mcp"]:
+                    acc["closest_mesh_level_scan"] += 1
         elif k in ("contain", "range", "ray"):
             for i, e in enumerate(t["b"]):
                 acc[k] += 1
@@ -234,12 +285,20 @@ def stats(raw, acc, cases):
                     acc["hit_hit"] += 1
                 if c >= 2:
                     acc["hit_several_candidates"] += 1
+                if e["msh"]["st"] != "NONE":
+                    acc["hit_rendering_mesh"] += 1
+                    if e["msh"]["h"]:
+                        acc["hit_rendering_mesh_hit"] += 1
 
 
 STAT_KEYS = ["trees", "trees_with_children", "trees_depth2plus", "trees_cell_with_several_elements", "max_cells",
              "max_elements", "bvh_builds", "closest", "closest_argmin_nontrivial", "contain", "contain_nonempty",
              "range", "range_nonempty", "range_positive_radius_nonempty", "ray", "ray_nonempty", "near", "near_hit",
-             "near_several_candidates", "hit", "hit_hit", "hit_several_candidates"]
+             "near_several_candidates", "hit", "hit_hit", "hit_several_candidates",
+             "trees_from_mesh", "trees_nonidentity_indices", "trees_attribute_route", "trees_on_second_attribute",
+             "tri_trees_on_second_attribute_nonidentity", "trees_mesh_without_position",
+             "trees_mesh_with_decoy_attribute", "closest_mesh_level_scan", "hit_rendering_mesh",
+             "hit_rendering_mesh_hit"]
 
 
 def report(ctx, vh, cases, findings, confirm=True):
@@ -251,7 +310,7 @@ def report(ctx, vh, cases, findings, confirm=True):
         if f["pred"].startswith("Harness."):
             raise core.Infra("harness inconsistency %s in case %d (%s line, entries %s)" %
                              (f["pred"], f["case"], f["k"], f["entries"][:5]))
-        sig = "%s/%s/%s" % (f["pred"], OPS.get(f["pred"], f["k"]), f["kind"])
+        sig = "%s/%s/%s" % (f["pred"], op_of(f["pred"], f["k"]), f["kind"])
         if per_sig.get(sig, 0) >= 3:
             continue
         per_sig[sig] = per_sig.get(sig, 0) + 1
@@ -276,9 +335,11 @@ def report(ctx, vh, cases, findings, confirm=True):
                 raise core.Infra("rejection %s of case %d does not reproduce on re-execution" % (sig, f["case"]))
             red = case
         nel = n_elements(case)
-        what = "%s rejected %s on a %s element set (%d elements, depth %s, tag %s); query #%d is the first of %d rejected" % (
-            f["pred"], OPS.get(f["pred"], f["k"]), f["kind"], nel, case["depth"], case.get("tag"),
-            f["entries"][0], len(f["entries"]))
+        what = ("%s rejected %s on a %s element set (%d elements, depth %s, tag %s, index layout %s, %d vertices, "
+                "other float3 attribute: %s); query #%d is the first of %d rejected" % (
+                    f["pred"], op_of(f["pred"], f["k"]), f["kind"], nel, case["depth"], case.get("tag"),
+                    case.get("lay") or "-", len(case["verts"]), "yes" if case.get("decoy") else "no",
+                    f["entries"][0], len(f["entries"])))
         ctx.violation(sig, what, {"family": "spatial", "pred": f["pred"], "case": red, "seed": ctx.seed})
 
 
@@ -288,7 +349,7 @@ def selftest(ctx, raw):
     out, expect = [], {}
     done = set()
     i = 0
-    while i < len(lines) and len(done) < 5:
+    while i < len(lines) and len(done) < 6:
         t = lines[i]
         # copy one unit (tree/scene line + its query lines) and corrupt at most one field in it
         j = i + 1
@@ -313,6 +374,12 @@ def selftest(ctx, raw):
                             e["rp"] = e["cp"][worst]
                             corrupted = ("closest", u, "C16.Closest")
                             break
+            elif k == "closest" and "scan" not in done:
+                for e in ln["b"]:
+                    if e["mcp"]:
+                        e["mcp"][-1][0] += 3
+                        corrupted = ("scan", u, "C16.ScanAgree")
+                        break
             elif k == "contain" and "contain" not in done:
                 for e in ln["b"]:
                     if e["res"]:
@@ -338,7 +405,7 @@ def selftest(ctx, raw):
             expect[len(out) + corrupted[1] + 1] = corrupted[2]
             out += unit
         i = j
-    if len(done) < 5:
+    if len(done) < 6:
         raise core.Infra("self-test could not find lines to corrupt (%s)" % sorted(done))
     d = ctx.scratch("selftest")
     with open(os.path.join(d, "trace.ndjson"), "w") as f:
@@ -396,7 +463,8 @@ def run(ctx):
     stats(raw, acc, cases)
     ctx.extra.update(acc)
     for k in STAT_KEYS:
-        if acc[k] == 0:
+        # (a run that rejected something is reported as such, whatever else it did not reach)
+        if acc[k] == 0 and not findings:
             raise core.Infra("vacuous run: counter %s is 0" % k)
     if not quick:
         clean = not findings
@@ -404,11 +472,13 @@ def run(ctx):
             selftest(ctx, raw)
     ctx.traces += len(cases)
     ctx.evaluations += sum(acc[k] for k in ("closest", "contain", "range", "ray", "near", "hit")) + acc["trees"]
-    ctx.nontrivial = len({json.dumps([c["kind"], c["verts"], c["idx"], c["sph"], c["depth"]]) for c in cases
+    ctx.nontrivial = len({json.dumps([c["kind"], c["verts"], c["idx"], c["sph"], c["depth"], c.get("attr"), c.get("decoy")])
+                          for c in cases
                           if len(c["verts"]) + len(c["sph"]) >= 2})
     ctx.rule = ("cases = TLC-enumerated multisets of lattice points (as point/segment/box/triangle sets, every depth, "
                 "whole query grid) + seeded element sets and sphere/triangle scenes; a case is an element set with a "
-                "depth, distinct by (kind, vertices, indices, depth), non-trivial if it has >= 2 vertices; "
+                "depth, executed through one variant (index layout x entry point / attribute route), distinct by "
+                "(kind, vertices, indices, depth, attribute, other attribute), non-trivial if it has >= 2 vertices; "
                 "evaluations = individual queries judged")
     ctx.sample({"kind": cases[0]["kind"], "verts": cases[0]["verts"], "depth": cases[0]["depth"], "tag": cases[0]["tag"]})
     last = cases[-1]
@@ -418,6 +488,8 @@ def run(ctx):
         "per-element facts come from the element-level real primitives (AABB.Contains/ClosestPoint/IntersectsRayInRange, "
         "Element.ClosestPoint, Tri.RayIntersects, Hittable.Hit on one element): the property compares index and scan, "
         "it does not define those primitives",
+        "the scan of a mesh case is taken from the unrolled twin of the mesh (vertex idx[k] stored at k under Position, "
+        "implied indices, no other attribute): element i of a mesh is made of the vertices its index buffer names",
         "reals are projected to 1/65536 fixed point; values within 1 unit are ties (left free by the statement)",
         "degenerate segments/triangles (NaN closest point at element level), empty element sets and ray ranges of "
         "length 0 are not generated",
